@@ -8,7 +8,7 @@ import symx  # noqa: F401
 from symx import values as V
 from symx.values import *  # noqa: F401,F403
 from symx.interp import Interp
-from symx import models_str, models_lib, models_struct, models_re  # noqa: F401
+from symx import models_str, models_lib, models_struct, models_re, models_url  # noqa: F401
 from framework import Instance  # noqa: F401
 
 I = Interp()
